@@ -85,6 +85,12 @@ def run(chk, replay=None):
             sstr = dt.strftime('%Y-%m-%d %H:%M:%S') + '+00:00'
         else:
             sstr = dt.strftime('%Y-%m-%d %H:%M:%S.%f')
+            # shorter fractions mean the same instant: .5 = 500 ms, .25 = 250 ms, .123 = 123 ms
+            if idx % 5 == 0:
+                frac = '%03d' % (msd % 1000)
+                while len(frac) > 1 and frac.endswith('0'):
+                    frac = frac[:-1]
+                sstr = dt.strftime('%Y-%m-%d %H:%M:%S.') + frac
         if dt.year < 1000:
             sstr = sstr.zfill(len(sstr) + 1)
         sback = guarded(tu.strptime_to_utc_epoch, sstr)
